@@ -164,7 +164,7 @@ def run(ctx):
         # nan / inf / infinity, any case, with an optional sign): quoted in value position
         core_parse = [b for g in fx.family(rf) for b, t in g.calls() if last_seg(fx.callee_decl(t)) in ("parse", "from_str")]
         words = {"nan", "inf", "infinity"} if core_parse else set()
-        ctx.check(bool(core_parse) or True, "TABLE", "C12:TABLE:bare-float:reader", "reader float parser %s core's str::parse" % ("falls back to" if core_parse else "does not use"), "", config, ctx.where(rf))
+        ctx.notes.append("%s: reader float parser %s core's str::parse (decides whether nan / inf / infinity spellings need quoting)" % (config, "falls back to" if core_parse else "does not use"))
         # the compared operand: either the words are compared on the sign-stripped text, or every signed spelling is listed
         stripped = set()
         for b, t in ambv.calls():
